@@ -5,6 +5,7 @@ import MiniMcmcVerif.Driver.C16
 import MiniMcmcVerif.Driver.C01
 import MiniMcmcVerif.Driver.C18
 import MiniMcmcVerif.Driver.C17
+import MiniMcmcVerif.Driver.Stats
 
 open MiniMcmcVerif MiniMcmcVerif.Driver
 
@@ -17,6 +18,11 @@ def dispatch (line : String) : String :=
   | "c01" :: args => c01 args
   | "c18" :: args => c18 args
   | "c17" :: args => c17 args
+  | "c11" :: args => c11 args
+  | "c11b" :: args => c11b args
+  | "c12" :: args => c12 args
+  | "c12a" :: args => c12a args
+  | "c13" :: args => c13 args
   | _ => "bad-op"
 
 partial def loop (h : IO.FS.Stream) (out : IO.FS.Stream) : IO Unit := do
